@@ -67,6 +67,77 @@ fn files_of(dir: &std::path::Path) -> Vec<PathBuf> {
     v
 }
 
+/// What the real reader answers for every (task, channel) of the directory as it is right now.
+fn read_back(dir: &std::path::Path, n_tasks: u32) -> (Vec<Value>, String, i64) {
+    let _ = panics::take();
+    let read = std::panic::catch_unwind(std::panic::AssertUnwindSafe(|| -> Result<Vec<Value>, String> {
+        let mut log = OutputLog::open(dir, None).map_err(|e| e.to_string())?;
+        let mut out = Vec::new();
+        for t in 1..=n_tasks {
+            for c in 0..2u32 {
+                match log.verif_read(JobId::new(1), JobTaskId::new(t), c) {
+                    Ok(Some((bytes, inst, finished, superseded))) => out.push(
+                        json!({"task": t, "chan": c, "found": true, "err": "", "tokens": parse(&bytes), "inst": inst, "finished": finished, "superseded": superseded}),
+                    ),
+                    Ok(None) => out.push(json!({"task": t, "chan": c, "found": false, "err": "", "tokens": [], "inst": -1, "finished": false, "superseded": []})),
+                    Err(e) => out.push(json!({"task": t, "chan": c, "found": true, "err": e.to_string(), "tokens": [], "inst": -1, "finished": false, "superseded": []})),
+                }
+            }
+        }
+        Ok(out)
+    }));
+    match read {
+        Ok(Ok(r)) => (r, String::new(), 0),
+        Ok(Err(e)) => (vec![], e, 0),
+        Err(_) => (vec![], panics::take().map(|p| p.0).unwrap_or_default(), 1),
+    }
+}
+
+/// The executions started so far; one that has not ended yet is "running" (nothing is promised about it).
+fn execs_json(execs: &[Exec], at_end: bool) -> Vec<Value> {
+    execs
+        .iter()
+        .filter(|e| e.started)
+        .map(|e| {
+            json!({"task": e.task, "inst": e.inst, "worker": e.worker, "end": if e.done || at_end { e.end } else { "running" }, "file": e.file_seq,
+                   "out": e.chunks[0].iter().take(e.next[0]).map(|(n, s)| json!([n, s])).collect::<Vec<_>>(),
+                   "err": e.chunks[1].iter().take(e.next[1]).map(|(n, s)| json!([n, s])).collect::<Vec<_>>(),
+                   "planned_out": e.chunks[0].len(), "planned_err": e.chunks[1].len()})
+        })
+        .collect()
+}
+
+/// The records of every worker's stream file as the real parser sees them now: [task, inst, chan, size, name, complete].
+fn scan_files(worker_file: &BTreeMap<u32, PathBuf>, execs: &[Exec]) -> Value {
+    let mut m = serde_json::Map::new();
+    for (w, f) in worker_file {
+        let recs = match OutputLog::verif_scan_file(f) {
+            Ok(Some(r)) => r,
+            _ => Vec::new(),
+        };
+        let mut ord: BTreeMap<(u32, u32, u32), usize> = BTreeMap::new();
+        let mut out = Vec::new();
+        for (t, i, c, size, ok) in recs {
+            let name = if size == 0 {
+                String::new()
+            } else {
+                let k = ord.entry((t, i, c)).or_insert(0);
+                let n = execs
+                    .iter()
+                    .find(|e| e.task == t && e.inst == i)
+                    .and_then(|e| e.chunks.get(c as usize).and_then(|v| v.get(*k)))
+                    .map(|x| x.0.clone())
+                    .unwrap_or_default();
+                *k += 1;
+                n
+            };
+            out.push(json!([t, i, c, size, name, ok]));
+        }
+        m.insert(w.to_string(), Value::Array(out));
+    }
+    Value::Object(m)
+}
+
 async fn one_run(run: u64, seed: u64, big: bool) -> Value {
     let mut rng = Rng::new(seed);
     let tmp = tempfile::TempDir::with_prefix("hqvs").unwrap();
@@ -116,10 +187,20 @@ async fn one_run(run: u64, seed: u64, big: bool) -> Value {
     let mut guard = 0;
     let hard = run % 5 == 1 || run % 5 == 4;
     let mut hard_stopped = false;
+    // after every step the directory is read as it is (streamers alive) and every file is scanned: the promise about an
+    // execution holds from the moment its end is reported, not only when everything has shut down
+    let mut steps: Vec<Value> = Vec::new();
+    let mut seen = 0usize;
     loop {
         guard += 1;
         if guard > 2000 {
             break;
+        }
+        if events.len() > seen {
+            let (read, open_err, pan) = read_back(&dir, n_tasks);
+            steps.push(json!({"evs": events[seen..].to_vec(), "execs": execs_json(&execs, false), "read": read, "open_err": open_err, "pan": pan,
+                              "files": scan_files(&worker_file, &execs)}));
+            seen = events.len();
         }
         // executions that can make a step: same task on the same worker strictly sequential, instances start in order
         let mut cands: Vec<usize> = Vec::new();
@@ -176,12 +257,17 @@ async fn one_run(run: u64, seed: u64, big: bool) -> Value {
         if execs[k].end == "crashed" && rng.below(3) == 0 {
             // everything written so far may or may not have reached the disk: cut between last flush and now
             let s = execs[k].sender.as_ref().unwrap().clone();
+            // what is in the file at this moment survives; of what the writer still holds any part may
+            let pre = worker_file.get(&worker).and_then(|f| std::fs::metadata(f).ok()).map(|m| m.len()).unwrap_or(0);
             let _ = s.flush().await;
             pump().await;
             if let Some(f) = worker_file.get(&worker).cloned() {
                 let full = std::fs::metadata(&f).map(|m| m.len()).unwrap_or(0);
-                let lo = last_flush_len.get(&f).copied().unwrap_or(0).min(full);
+                let lo = last_flush_len.get(&f).copied().unwrap_or(0).max(pre).min(full);
                 let cut = lo + (rng.next() % (full - lo + 1));
+                if let Ok(file) = std::fs::OpenOptions::new().write(true).open(&f) {
+                    let _ = file.set_len(cut);
+                }
                 crashed_workers.insert(worker, (f, cut));
                 events.push(json!(["crash", worker, lo, full, cut]));
             }
@@ -213,10 +299,12 @@ async fn one_run(run: u64, seed: u64, big: bool) -> Value {
                         let s2 = execs[o].sender.as_ref().unwrap().clone();
                         let (_, _) = tokio::join!(s.flush(), s2.send_data(c as u32, chunk_bytes(&name, size)));
                         execs[o].next[c] += 1;
-                        events.push(json!(["write", execs[o].task, execs[o].inst, c, name]));
+                        events.push(json!(["flush", task, inst]));
+                        events.push(json!(["write", execs[o].task, execs[o].inst, c, name, size]));
                     }
                     _ => {
                         let _ = s.flush().await;
+                        events.push(json!(["flush", task, inst]));
                     }
                 }
                 if hard {
@@ -242,13 +330,18 @@ async fn one_run(run: u64, seed: u64, big: bool) -> Value {
             let (name, size) = execs[k].chunks[c][execs[k].next[c]].clone();
             let _ = s.send_data(c as u32, chunk_bytes(&name, size)).await;
             execs[k].next[c] += 1;
-            events.push(json!(["write", task, inst, c, name]));
+            events.push(json!(["write", task, inst, c, name, size]));
         } else {
             let _ = s.send_data(c as u32, Vec::new()).await;
             execs[k].closed[c] = true;
             events.push(json!(["close", task, inst, c]));
         }
         pump().await;
+    }
+    if events.len() > seen {
+        let (read, open_err, pan) = read_back(&dir, n_tasks);
+        steps.push(json!({"evs": events[seen..].to_vec(), "execs": execs_json(&execs, false), "read": read, "open_err": open_err, "pan": pan,
+                          "files": scan_files(&worker_file, &execs)}));
     }
     // let all writers finish, then apply the crash cuts; in a hard stop every worker is killed at this very moment instead:
     // the directory is read as it is while the streamers are alive, and what was running counts as crashed
@@ -274,43 +367,13 @@ async fn one_run(run: u64, seed: u64, big: bool) -> Value {
         }
     }
     // executions that never started (their worker crashed earlier) are not part of the behaviour
-    let _ = panics::take();
-    let read = std::panic::catch_unwind(std::panic::AssertUnwindSafe(|| -> Result<Vec<Value>, String> {
-        let mut log = OutputLog::open(&dir, None).map_err(|e| e.to_string())?;
-        let mut out = Vec::new();
-        for t in 1..=n_tasks {
-            for c in 0..2u32 {
-                match log.verif_read(JobId::new(1), JobTaskId::new(t), c) {
-                    Ok(Some((bytes, inst, finished, superseded))) => out.push(
-                        json!({"task": t, "chan": c, "found": true, "err": "", "tokens": parse(&bytes), "inst": inst, "finished": finished, "superseded": superseded}),
-                    ),
-                    Ok(None) => out.push(json!({"task": t, "chan": c, "found": false, "err": "", "tokens": [], "inst": -1, "finished": false, "superseded": []})),
-                    Err(e) => out.push(json!({"task": t, "chan": c, "found": true, "err": e.to_string(), "tokens": [], "inst": -1, "finished": false, "superseded": []})),
-                }
-            }
-        }
-        Ok(out)
-    }));
+    let (read, open_err, pan) = read_back(&dir, n_tasks);
     for e in execs.iter_mut() {
         e.sender = None;
     }
     drop(streamers);
-    let (read, open_err, pan) = match read {
-        Ok(Ok(r)) => (r, String::new(), 0),
-        Ok(Err(e)) => (vec![], e, 0),
-        Err(_) => (vec![], panics::take().map(|p| p.0).unwrap_or_default(), 1),
-    };
-    let ex: Vec<Value> = execs
-        .iter()
-        .filter(|e| e.started)
-        .map(|e| {
-            json!({"task": e.task, "inst": e.inst, "worker": e.worker, "end": e.end, "file": e.file_seq,
-                   "out": e.chunks[0].iter().take(e.next[0]).map(|(n, s)| json!([n, s])).collect::<Vec<_>>(),
-                   "err": e.chunks[1].iter().take(e.next[1]).map(|(n, s)| json!([n, s])).collect::<Vec<_>>(),
-                   "planned_out": e.chunks[0].len(), "planned_err": e.chunks[1].len()})
-        })
-        .collect();
-    json!({"run": run, "execs": ex, "read": read, "open_err": open_err, "pan": pan, "n_files": files_of(&dir).len(), "events": events})
+    let ex = execs_json(&execs, true);
+    json!({"run": run, "execs": ex, "read": read, "open_err": open_err, "pan": pan, "n_files": files_of(&dir).len(), "events": events, "steps": steps})
 }
 
 /// Process mode: the executions are REAL processes run through the real task future of the worker
@@ -423,7 +486,7 @@ async fn one_run_proc(run: u64, seed: u64) -> Value {
         Err(_) => (vec![], panics::take().map(|p| p.0).unwrap_or_default(), 1),
     };
     drop(streamers);
-    json!({"run": run, "execs": ex, "read": read, "open_err": open_err, "pan": pan, "n_files": files_of(&dir).len(), "events": events, "mode": "process"})
+    json!({"run": run, "execs": ex, "read": read, "open_err": open_err, "pan": pan, "n_files": files_of(&dir).len(), "events": events, "mode": "process", "steps": []})
 }
 
 pub fn main(args: &[String]) -> i32 {
